@@ -5,6 +5,7 @@ package props
 import (
 	"fmt"
 	"math/big"
+	"sync"
 	"testing"
 
 	"github.com/crate-crypto/go-ipa/bandersnatch/fr"
@@ -306,6 +307,44 @@ func TestC18(t *testing.T) {
 		if hx.Sharded(i) {
 			c18Table.EvalCase(s, c18TableCase{Table: "inverted", Index: i})
 		}
+	}
+	// concurrent FIRST use of freshly constructed weights objects (6 goroutines per object, barrier-aligned)
+	if hx.Thorough() || hx.Shard()%4 == 1 {
+		s.Guard(func() {
+			pz := polySpec{Kind: "dense", Seed: uint64(31 + hx.Shard())}
+			fz := c18Evals(pz)
+			coz := c18Coeffs(pz, fz)
+			zs := []*big.Int{big.NewInt(256), big.NewInt(257), new(big.Int).Set(rMinus1), hx.ExpandFr(uint64(hx.Seed()), "c18cz", 0), big.NewInt(300), big.NewInt(70000)}
+			wants := make([]*big.Int, len(zs))
+			for i, z := range zs {
+				wants[i] = ref.Horner(coz, z)
+			}
+			for trial := 0; trial < hx.Pick(300, 3000) && !s.Failed(); trial++ {
+				fresh := ipa.NewPrecomputedWeights()
+				var wg sync.WaitGroup
+				got := make([][]fr.Element, len(zs))
+				start := make(chan struct{})
+				for g := range zs {
+					wg.Add(1)
+					go func(g int) {
+						defer wg.Done()
+						<-start
+						got[g] = fresh.ComputeBarycentricCoefficients(hx.FrFromBig(zs[g]))
+					}(g)
+				}
+				close(start)
+				wg.Wait()
+				s.Rec.Eval(len(zs))
+				for g := range zs {
+					if len(got[g]) != 256 || ref.FrInner(fz, hx.FrSliceToBig(got[g])).Cmp(wants[g]) != 0 {
+						s.Violation("poly", c18Case{Poly: pz, Mode: "evaluate", Z: hx.HexBig(zs[g])},
+							fmt.Errorf("concurrent first use of a fresh PrecomputedWeights object (trial %d, goroutine %d): <f, coeffs(z=%s)> != p(z)", trial, g, zs[g].Text(16)))
+						return
+					}
+				}
+			}
+			s.Rec.Label("concurrent_first_use_of_fresh_objects")
+		})
 	}
 	s.Rec.Extra("exhaustive", complete && !s.Failed())
 	s.Rec.Extra("exhaustive_subdomain", "all 512+510 table entries; all 256 division indices for every listed polynomial")
